@@ -34,7 +34,7 @@ theorem LinkedS.contained {areas : List AreaT} {g : Gene} {d : AreaT} {s : Secti
   obtain ⟨h1, h2⟩ := downNodes_sound g a.size none a (d, s) (Nat.le_refl _) hc hd
   exact ⟨h1, a, ha, h2⟩
 
-theorem registered_eq_live {L : Live} {ever : List AreaT} {r : Rec} (c : InvCore L ever r) : registered r = L.areas := by
+theorem registered_eq_live {S : Prop} {L : Live} {ever : List AreaT} {r : Rec} (c : InvCore S L ever r) : registered r = L.areas := by
   simp only [registered, Live.areas, c.regionsEq, c.protosEq, c.candsEq, c.subsEq]
 
 /-- every collection currently in the record, and every descendant of one, lists exactly the genes its
@@ -71,7 +71,7 @@ theorem definition_exact {len : Int} {ops : List Op} {r : Rec} (hrun : run len o
   simp only [specDefinition, List.mem_map, List.mem_filter, Bool.and_eq_true]
   constructor
   · intro hm
-    obtain ⟨g, hg, d', ⟨s, hl⟩, hdef, hx⟩ := inv.defsSound _ hm
+    obtain ⟨g, hg, d', ⟨s, hl⟩, hdef, hx⟩ := inv.defsSound trivial _ hm
     injection hx with h1 h2
     obtain ⟨hc, a', ha', hd'⟩ := hl.contained
     obtain ⟨e1, e2, e3, _⟩ := hok.ids a' ha' a hae d' hd' d hd h1.symm
@@ -83,7 +83,7 @@ theorem definition_exact {len : Int} {ops : List Op} {r : Rec} (hrun : run len o
   · rintro ⟨g, ⟨hg, ⟨hc, hcore⟩, hprod⟩, rfl⟩
     rw [← containedBy_eq_spec (gene_le (inv.ok g hg))] at hc hcore
     obtain ⟨h1, s, h2⟩ := downNodes_complete g a.size none a d (Nat.le_refl _) (hok.inside a hae) hd hc
-    refine inv.defsComplete g hg d ⟨s, a, har, h1, h2⟩ ?_
+    refine inv.defsComplete trivial g hg d ⟨s, a, har, h1, h2⟩ ?_
     have hp : d.product ∈ g.cores := by simpa using hprod
     simp [defines, hk, hcore, hp]
 
